@@ -142,6 +142,17 @@ def _episode(c, cfg):
             if raised is None:
                 c.prove("C09:done-only-at-end-of-data", bool(done) == (k == ep.N - 1))
                 told_done = bool(done)
+    # ---- an episode that ended (for whatever reason) refuses further steps until reset
+    if env._done:
+        n_rec = len(env.broker.track_record)
+        try:
+            env.step(np.array([0.1]))
+            refused = False
+        except EndOfEpisodeError:
+            refused = True
+        c.prove("C09:step-after-end-of-episode-is-refused", refused and len(env.broker.track_record) == n_rec,
+                info={"raised": "none" if not refused else "EndOfEpisodeError"})
+        c.reached("refused-after-end")
     # ---- reset gives a working environment again
     env.reset()
     try:
@@ -150,6 +161,7 @@ def _episode(c, cfg):
     except EndOfEpisodeError:
         ok = False
     c.prove("C09:reset-restores-a-solvent-episode", ok)
+    c.prove_eq("C09:reset-restores-the-initial-deposit", info["_rebalancing"].context_pre.nlv if ok else 0.0, 100.0)
     c.reached("episode")
 
 
@@ -183,7 +195,7 @@ def configs(tier):
 
 ANCHORS = ["broker.py:Broker.net_liquidation_value", "broker.py:Broker.rebalance", "env.py:TradingEnv.step",
            "env.py:TradingEnv.reset", "rewards.py:RewardSimpleReturn.calculate"]
-EXPECT_REACH = ["valuation", "broke", "episode", "ruin-step", "broke-at-decision", "refused"]
+EXPECT_REACH = ["valuation", "broke", "episode", "ruin-step", "broke-at-decision", "refused", "refused-after-end"]
 ASSUMPTIONS = _A + ["episode configs: one spot contract bought with weight 2 (leveraged) or sold short with weight "
                     "-1 on the first step, then symbolic quotes 0 < bid <= ask decide where NLV crosses zero",
                     "builtin float() shadowed in tradingenv.rewards (identity on proxies)"]
